@@ -2,7 +2,8 @@ package main
 
 // Area handshake (C15): HandleMakeJoin, HandleMakeLeave, HandleSendJoin, HandleInvite, PerformJoin run with
 // mock queriers / verifiers / federation clients built from the op line. Argument encodings are
-// documented at the top of lean/VDriver/Handshake.lean.
+// documented at the top of lean/VDriver/Handshake.lean. PerformInvite and the pseudo-ID path of HandleSendJoin:
+// area_handshake_invite.go (encodings: lean/VDriver/HandshakeInvite.lean).
 
 import (
 	"context"
@@ -349,6 +350,10 @@ func execHandshake(op string, args []string) string {
 		return execPerformJoin(args)
 	case "invitev3":
 		return execInviteV3(args)
+	case "perform_invite":
+		return execPerformInvite(args)
+	case "sendjoin_pseudo":
+		return execSendJoinPseudo(args)
 	case "invite":
 		ver := args[0]
 		ever := ver
@@ -460,6 +465,13 @@ func genHandshake(o *Out, tier string, r *Rng) {
 	}
 	for i := 0; i < n/3; i++ {
 		genInviteV3(o, r, i)
+	}
+	for i := 0; i < n; i++ {
+		genSendJoinPseudo(o, r, i)
+	}
+	genPerformInviteFixed(o, r)
+	for i := 0; i < 2*n; i++ {
+		genPerformInvite(o, r, i)
 	}
 }
 
